@@ -65,6 +65,20 @@ pub fn run_case(rec: &mut Recorder, prop: Prop, src: &str, calls: &[(String, Vec
         Err(e) => {
             rec.count("outside-fragment");
             rec.notes.push(format!("outside fragment: {e}"));
+            // C24: whatever the real compiler accepts is executed and classified, model or not
+            if let (Prop::C24, Some(m)) = (prop, machine.as_ref()) {
+                for (f, args) in calls {
+                    let real = run_real(m, f, args, MAX_STEPS);
+                    if let Some(c) = real.err {
+                        if FORBIDDEN.contains(&c) {
+                            rec.oracle_fail_with(
+                                format!("accepted policy went wrong: {f}(..) ended with machine error {c} ({})", describe(&real.outcome)),
+                                vec![format!("prog {} -", hex(src.as_bytes()))],
+                            );
+                        }
+                    }
+                }
+            }
             return CaseResult { accepted: machine.is_some(), parse_error: None, machine };
         }
     };
@@ -84,6 +98,17 @@ pub fn run_case(rec: &mut Recorder, prop: Prop, src: &str, calls: &[(String, Vec
 
     for (f, args) in calls {
         let real = run_real(&m, f, args, MAX_STEPS);
+        // C24: every run of an accepted program is classified first, independently of the model
+        // drivers and of the reference evaluator
+        if let (Prop::C24, Some(c)) = (prop, real.err) {
+            if FORBIDDEN.contains(&c) {
+                let shown: Vec<String> = args.iter().map(|a| a.show()).collect();
+                rec.oracle_fail_with(
+                    format!("accepted policy went wrong: {f}({}) ended with machine error {c} ({})", shown.join(", "), describe(&real.outcome)),
+                    vec![format!("prog {} {}", hex(src.as_bytes()), sxp), format!("eval {f} {}", shown.join(" "))],
+                );
+            }
+        }
         let mut it = match refeval::Interp::new(&policy) {
             Ok(i) => i,
             Err(e) => {
@@ -150,14 +175,6 @@ pub fn run_case(rec: &mut Recorder, prop: Prop, src: &str, calls: &[(String, Vec
                 }
             }
             Prop::C24 => {
-                if let Some(c) = real.err {
-                    if FORBIDDEN.contains(&c) {
-                        rec.oracle_fail_with(
-                            format!("accepted policy went wrong: {f}({}) ended with machine error {c} ({})", argtoks.join(", "), describe(&real.outcome)),
-                            here.clone(),
-                        );
-                    }
-                }
                 if let (Outcome::Wrong(w), true) = (&refo, real.err.is_none()) {
                     rec.oracle_fail_with(
                         format!("accepted policy has no meaning ({w}) yet {f}({}) ran to `{}`", argtoks.join(", "), describe(&real.outcome)),
@@ -252,6 +269,15 @@ pub fn main_for(prop: Prop) {
         } else if prop == Prop::C24 && ci % 6 == 3 {
             // control: the same templates with equal types have to be accepted and are executed
             knobs.near = Some((ci / 6, false));
+        }
+        // debugging aid: LANGKIT_NEAR=control|ill forces a typing-rule template into every case
+        match std::env::var("LANGKIT_NEAR").as_deref() {
+            Ok("control") => {
+                knobs.ill = 0;
+                knobs.near = Some((ci, false));
+            }
+            Ok("ill") => knobs.near = Some((ci, true)),
+            _ => {}
         }
         // plausible-looking forms the front end has to reject or handle (C24 all the time, C22 rarely)
         if (prop == Prop::C24 && ci % 4 == 1) || (prop == Prop::C22 && ci % 16 == 5) {
